@@ -17,6 +17,7 @@ import (
 	"strings"
 	"time"
 
+	"github.com/tmpim/casket"
 	"github.com/tmpim/casket/caskethttp/basicauth"
 	"github.com/tmpim/casket/caskethttp/fastcgi"
 	"github.com/tmpim/casket/caskethttp/httpserver"
@@ -415,7 +416,7 @@ func c19HelloCases(g *hx.Gen, emit func(msg []byte)) {
 	}
 	n := 1500
 	if g.Thorough() {
-		n = 40000
+		n = 200000
 	}
 	for i := 0; i < n; i++ {
 		var msg []byte
@@ -639,7 +640,7 @@ func c19SegGen(g *hx.Gen) {
 	}
 	n := 800
 	if g.Thorough() {
-		n = 20000
+		n = 100000
 	}
 	for i := 0; i < n; i++ {
 		var msg []byte
@@ -718,7 +719,7 @@ func init() {
 			}
 			n := 600
 			if g.Thorough() {
-				n = 20000
+				n = 100000
 			}
 			for i := 0; i < n; i++ {
 				msg := c19RandomHello(r).message(r)
@@ -1000,7 +1001,7 @@ func init() {
 			}
 			n := 2500
 			if g.Thorough() {
-				n = 50000
+				n = 200000
 			}
 			for i := 0; i < n; i++ {
 				b := c19RandomFraming(r)
@@ -1107,14 +1108,14 @@ func init() {
 // ---------------------------------------------------------------- c19.explore (no model)
 
 // Entry points whose parsing is done by the standard library or lies outside the Lean models:
-// they are only explored for panics.  kind = fcgiresp | replacer | basicauth | servelinks
+// they are only explored for panics.  kind = fcgiresp | replacer | basicauth | fastcgi | servelinks
 func init() {
 	hx.Register(&hx.Stream{ID: "C19", Name: "c19.explore",
 		Gen: func(g *hx.Gen) {
 			r := g.Rng
 			n := 1500
 			if g.Thorough() {
-				n = 30000
+				n = 100000
 			}
 			hdrs := []string{"Status: 200 OK\r\n", "Status: 404\r\n", "Status: abc\r\n", "Status:\r\n", "Content-Type: text/html\r\n", "X: y\r\n", " cont\r\n",
 				":\r\n", "Transfer-Encoding: chunked\r\n", "Content-Length: -1\r\n", "\r\n", "\n", "body", "\x00", "5\r\nhello\r\n0\r\n\r\n", "zz\r\n"}
@@ -1148,6 +1149,12 @@ func init() {
 			for i := 0; i < n; i++ {
 				kind := hx.Pick(r, []string{"replacer", "basicauth"})
 				g.Case(kind, hx.HS(hx.Pick(r, hosts)), hx.HS(hx.Pick(r, paths)), hx.HS(hx.Pick(r, hvals)), hx.HS(hx.Pick(r, hvals)))
+			}
+			// fastcgi.Handler.ServeHTTP up to the dial (the responder address refuses connections)
+			for _, rule := range []string{"fastcgi / 127.0.0.1:1", "fastcgi / 127.0.0.1:1 php", "fastcgi /app 127.0.0.1:1 {\n ext .php\n}"} {
+				for _, target := range []string{"http://example.test", "http://example.test?x=1", "/", "/a.php", "/%20", "/.", "/%20.%20.", "*", "/app", "/app/", "/app/x.php/", "//", "/a.php/%ff"} {
+					g.Case("fastcgi", hx.HS(rule), hx.HS(target))
+				}
 			}
 			links := []string{">foo<", "</a>", "</a>; nopush", "<//x>", ",", "<", ">", "<>", "</a>,>b<,</c>", "><", "</a>;=;;=", "\xff<\xfe>"}
 			for i := 0; i < n/3; i++ {
@@ -1192,6 +1199,28 @@ func init() {
 						code, _ := ba.ServeHTTP(httptest.NewRecorder(), req)
 						tags = append(tags, "code="+strconv.Itoa(code))
 					}
+				case "fastcgi":
+					c := casket.NewTestController("http", hx.UnHS(f[1]))
+					action, err := casket.DirectiveAction("http", "fastcgi")
+					if err != nil {
+						return "setup-error:" + err.Error()
+					}
+					if err := action(c); err != nil {
+						return "setup-error:" + err.Error()
+					}
+					method := "GET"
+					if hx.UnHS(f[2]) == "*" {
+						method = "OPTIONS"
+					}
+					req, err := http.ReadRequest(bufio.NewReader(strings.NewReader(method + " " + hx.UnHS(f[2]) + " HTTP/1.1\r\nHost: example.test\r\n\r\n")))
+					if err != nil {
+						tags = append(tags, "trivial-rejected-by-net/http")
+						return "ok"
+					}
+					req = req.WithContext(context.WithValue(req.Context(), httpserver.OriginalURLCtxKey, *req.URL))
+					h := httpserver.GetConfig(c).Middleware()[0](httpserver.HandlerFunc(func(w http.ResponseWriter, r *http.Request) (int, error) { return 0, nil }))
+					code, _ := h.ServeHTTP(httptest.NewRecorder(), req)
+					tags = append(tags, "code="+strconv.Itoa(code))
 				case "servelinks":
 					// the push middleware's handling of Link headers set by an upstream handler
 					w := &c19Pusher{ResponseRecorder: httptest.NewRecorder()}
